@@ -18,13 +18,18 @@ MANIFEST = {
             "14 generators' mask_func + helpers (+ temp_seed's statement skeleton, kernel-seed provenance, srand-before-rand "
             "in the .pyx files). Differential correspondence: real histories vs the model on symbolic streams (state ids of "
             "np/torch/python/private streams after every op, output classes, ACS/mask request traces), every executed draw "
-            "mapped to its static table site through the caller frame of a recording RandomState.",
+            "mapped to its static table site through the caller frame of a recording RandomState. Also covered: the seed plumbing "
+            "CreateSamplingMask -> mask_func(shape, seed=tuple(map(ord, filename))) (generated facts + real transform calls in the "
+            "histories, theorem create_sampling_mask_reproducible), integerize_seed, and calls that raise inside the seeded scope "
+            "(fault injected at the k-th draw, infeasible pairs of the same family): they restore like any other call and the "
+            "following seeded call is unaffected.",
     "note": "Trusted: Lean kernel (+propext, Classical.choice, Quot.sound), the AST walk (completeness: every executed draw is "
             "checked to be a listed site, but draws on objects the recorder cannot see are only caught through the state ids "
             "and the bitwise mask comparison), numpy RandomState determinism (seed -> stream), SHA-1 of get_state() as state "
             "identity. Partial: libc rand() state is global and re-seeded by the Cython kernels - not restored, not among the "
             "streams the property names; the kernels' seeds are shown to be in-scope draws from self.rng. CalgaryCampinas is "
-            "out of scope.",
+            "out of scope: its RNG sites are walked and reported in the generated file / translator status only (it needs "
+            "downloaded masks to run).",
     "technique": "Lean 4 proof (induction over interaction trees and op histories) + generated RNG-access table decided by "
                  "`decide` + differential correspondence on recorded draw logs + direct bitwise oracle",
 }
@@ -42,7 +47,9 @@ ASSUMPTIONS = [
     "(the harness gives every perturbation of a global stream a distinct size so that this is exact)",
 ]
 RULE = ("one case = one history (4-9 ops: calls with other seeds / unseeded / other shapes / return_acs / other generator / "
-        "second instance, perturbations and re-seedings of numpy, torch, python global streams) followed by the observed "
+        "second instance, malformed rank / float seed, exceptions injected inside the seeded scope, infeasible pairs raising "
+        "inside the scope, CreateSamplingMask transforms with the same / another file name, perturbations and re-seedings of "
+        "numpy, torch, python global streams) followed by the observed "
         "seeded call (mask and ACS) on a reused or fresh instance, compared with the same call alone in another process; "
         "all 14 generators x modes {static, dynamic, multislice} (Kt*: dynamic), int and tuple seeds. non-trivial = the "
         "history contains at least one other call on the observed instance and one global perturbation, and the mask has an "
@@ -364,7 +371,9 @@ def correspondence(ctx: Ctx):
                 snaps.append(st["snap"])
             elif k == "call":
                 cid = conf_ids.setdefault(json.dumps(h["confs"][op["inst"]], sort_keys=True), len(conf_ids))
-                key = keys.setdefault((cid, tuple(op["shape"]), op["acs"]), len(keys))
+                tag = "fault" if (op.get("fault") and st["call"]["err"] == "RuntimeError") else \
+                    "badseed" if isinstance(op["seed"], float) else None
+                key = keys.setdefault((cid, tuple(op["shape"]), op["acs"], tag), len(keys))
                 sd = -1 if op["seed"] is None else seeds.setdefault(json.dumps(op["seed"]), len(seeds))
                 groups.append([0, op["inst"], key, sd] + _events(table, st["call"], reqs))
                 snaps.append(st["snap"])
@@ -388,7 +397,7 @@ def correspondence(ctx: Ctx):
                     masks = st["call"].get("masks") or []
                     pcall = {"err": st["call"]["err"] if n_sub == len(subs) - 1 else None,
                              "mask": masks[n_sub] if n_sub < len(masks) else None, "log": sub}
-                    key = keys.setdefault((cid, tuple(pop["shape"]), acs), len(keys))
+                    key = keys.setdefault((cid, tuple(pop["shape"]), acs, None), len(keys))
                     groups.append([0, op["inst"], key, sd] + _events(table, pcall, reqs))
                     snaps.append(st["snap"])
                     outs.append(_out_identity(cid, pop, pcall))
